@@ -1018,7 +1018,8 @@ func decodeScenarios(d *decodeCtx, thoroughTier bool) map[string]choice.Scenario
 		case 8:
 			head = []byte{mj<<5 | 27, byte(l >> 56), byte(l >> 48), byte(l >> 40), byte(l >> 32), byte(l >> 24), byte(l >> 16), byte(l >> 8), byte(l)}
 		}
-		follow := [][]byte{nil, {0x00}, {0x00, 0x00, 0x01, 0x01, 0x02, 0x02, 0x03, 0x03}}[c.Choose("followed-by", 3)]
+		// (the last one: an entry whose key is an unsigned above MaxInt64 - the profile-1 decoder's slow path)
+		follow := [][]byte{nil, {0x00}, {0x00, 0x00, 0x01, 0x01, 0x02, 0x02, 0x03, 0x03}, {0x1b, 0xff, 0xff, 0xff, 0xff, 0xff, 0xff, 0xdb, 0x08, 0x60}}[c.Choose("followed-by", 4)]
 		item := append(append([]byte{}, head...), follow...)
 		pos := c.Choose("position", 13)
 		var in []byte
